@@ -26,6 +26,10 @@ Proof. exact blank_lines_lemma. Qed.
 Theorem C15_indentation_irrelevant : forall l1 l2, asi (l1 ++ Blank :: l2) = asi (l1 ++ l2).
 Proof. exact indentation_lemma. Qed.
 
+(* a final newline at the end of the file changes nothing *)
+Theorem C15_trailing_newline_irrelevant : forall l, asi (l ++ [NL]) = asi (l ++ []).
+Proof. exact trailing_newline_lemma. Qed.
+
 (* where the lexer is after a statement-ending token, outside ( and [, and the next token is
    not `else`, a newline and an explicit semicolon give the same token stream *)
 Theorem C15_explicit_semicolon_equiv : forall l1 l2,
